@@ -289,3 +289,69 @@ def aggregation_is_flushed(ctx):
     cs = [c for c in own_calls(rfc.node) if norm(c.func) == 'ReadFileChunk']
     ok = len(cs) == 1 and norm(kwarg(cs[0], 'callbacks')) == 'callbacks' and norm(kwarg(cs[0], 'close_callbacks')) == 'close_callbacks'
     ctx.ob(rfc, 'ReadFileChunk(..., callbacks=callbacks, close_callbacks=close_callbacks)', ok, 'callbacks not handed to the body')
+
+
+@rule('C09.g', ['C09', 'C13'], floor=2)
+def the_transfer_signal_reaches_the_wrapped_body(ctx):
+    """botocore wraps a body that gets a trailing checksum in AwsChunkedWrapper; the body
+    whose callbacks (and bandwidth limiting) must be switched on at 'request-created' is
+    the wrapped one.  signal_transferring unwraps exactly that class, through the attribute
+    in which botocore's AwsChunkedWrapper.__init__ keeps the stream it was given (read from
+    the installed botocore source, like the service model for C15), and signals the result
+    when it has the method; otherwise no progress is ever reported for such uploads."""
+    import importlib.util
+    import os
+    spec = importlib.util.find_spec('botocore')
+    ctx.need(spec is not None and spec.submodule_search_locations, 'botocore is not installed: the wrapper attribute cannot be read')
+    path = os.path.join(list(spec.submodule_search_locations)[0], 'httpchecksum.py')
+    ctx.need(os.path.exists(path), 'botocore/httpchecksum.py not found')
+    tree = ast.parse(open(path, encoding='utf-8').read())
+    cls = [n for n in ast.walk(tree) if isinstance(n, ast.ClassDef) and n.name == 'AwsChunkedWrapper']
+    ctx.need(len(cls) == 1, 'AwsChunkedWrapper not found in botocore.httpchecksum')
+    init = [n for n in cls[0].body if isinstance(n, ast.FunctionDef) and n.name == '__init__']
+    ctx.need(init and len(init[0].args.args) >= 2, 'AwsChunkedWrapper.__init__ not recognised')
+    first = init[0].args.args[1].arg
+    attrs = [t.attr for n in ast.walk(init[0]) if isinstance(n, ast.Assign) and isinstance(n.value, ast.Name) and n.value.id == first
+             for t in n.targets if isinstance(t, ast.Attribute) and isinstance(t.value, ast.Name) and t.value.id == 'self']
+    ctx.need(len(attrs) == 1, f'AwsChunkedWrapper.__init__ stores its stream in {attrs}')
+    raw_attr = attrs[0]
+    ctx.extra['AwsChunkedWrapper stream attribute'] = raw_attr
+    f = ctx.func('utils.signal_transferring')
+    sig = [c for c in own_calls(f.node) if isinstance(c.func, ast.Attribute) and c.func.attr == 'signal_transferring']
+    ctx.need(len(sig) == 1, 'utils.signal_transferring no longer signals a body')
+    recv = sig[0].func.value
+    g = ctx.cfg(f)
+    pv = q.path_values(g, f, g.nodes_of(sig[0]), [recv])
+    ctx.need(pv, 'no path to the signal')
+    seen_wrapped = seen_plain = False
+    ok = True
+    # locals that start out as the request body are read as `request.body` (body = request.body; if isinstance(body, ...): body = ...)
+    import copy
+    body_names = {st.targets[0].id for st, v in [(n, n.value) for n in own_nodes(f.node) if isinstance(n, ast.Assign) and len(n.targets) == 1 and isinstance(n.targets[0], ast.Name)]
+                  if norm(v) == 'request.body'}
+
+    def _rb(e):
+        class T(ast.NodeTransformer):
+            def visit_Name(self, node):
+                if isinstance(node.ctx, ast.Load) and node.id in body_names:
+                    return ast.parse('request.body', mode='eval').body
+                return node
+        return T().visit(copy.deepcopy(e)) if isinstance(e, ast.AST) else e
+    for conds, vals, _ in pv:
+        v = _rb(vals[0])
+        conds = [(_rb(e), p_) for e, p_ in conds]
+        t = norm(v) if isinstance(v, ast.AST) else ''
+        wrapped = q.guards_imply(conds, 'isinstance(request.body, AwsChunkedWrapper)')
+        plain = q.guards_imply(conds, 'not isinstance(request.body, AwsChunkedWrapper)')
+        if wrapped:
+            seen_wrapped = True
+            ok = ok and t in (f"getattr(request.body, '{raw_attr}', None)", f'request.body.{raw_attr}', f"getattr(request.body, '{raw_attr}')")
+        elif plain:
+            seen_plain = True
+            ok = ok and t == 'request.body'
+        else:
+            ok = False
+    ctx.ob(f, f"a wrapped body is signalled through AwsChunkedWrapper's own attribute ({raw_attr}), a plain body directly", ok and seen_wrapped and seen_plain,
+           'the body that reports progress is not reached: uploads whose body botocore wraps (trailing checksums - the default over https) report no progress at all')
+    imp = ctx.p.modules['utils'].imports.get('AwsChunkedWrapper')
+    ctx.ob('utils', 'AwsChunkedWrapper comes from botocore.httpchecksum', imp is not None and 'botocore.httpchecksum' in imp[0], f'{imp}')
